@@ -9,6 +9,7 @@ import NutsProofs.Lemmas.C08Data
 import NutsProofs.Lemmas.C08Inv
 import NutsProofs.Lemmas.C08Repair
 import NutsProofs.Lemmas.C08Order
+import NutsProofs.Lemmas.C08Codec
 
 namespace Nuts.C08.Props
 open Nuts.C08
@@ -637,5 +638,167 @@ theorem reRoot_overflow_witness : reRoot32 (BitVec.ofNat 32 (2 ^ 31)) = 0 ∧
   have : k ∈ List.range 31 := List.mem_range.mpr hk
   revert k
   decide
+
+/-! ### the byte layer (deepening round 2026-09-28): shelf keys, hash lists, leaf codecs, Load on raw bytes -/
+
+section codec
+open Nuts.C08.Codec
+
+/-- generated from the source: byte orders, offsets and length checks of the codecs are what the model hard-codes -/
+theorem fact_codec :
+    Facts.C08.treeKeyPut = "LittleEndian.PutUint32" ∧ Facts.C08.treeKeyGet = "LittleEndian.Uint32" ∧
+    Facts.C08.bytesToClockFn = "BigEndian.Uint32" ∧ Facts.C08.bytesToCountFn = "BigEndian.Uint64" ∧
+    Facts.C08.setHighestClockPut = "BigEndian.PutUint32" ∧ Facts.C08.setCountPut = "BigEndian.PutUint64" ∧
+    Facts.C08.ibltByteOrder = "LittleEndian" ∧
+    Facts.C08.bucketMarshalLayout = ["PutUint32@" ++ toString countOff, "PutUint64@" ++ toString hashSumOff, "copy@" ++ toString keySumOff] ∧
+    Facts.C08.bucketUnmarshalLayout = ["Uint32@:4", "Uint64@4:12", "hash@12:"] ∧
+    Facts.C08.bucketBytes = bucketBytes ∧ Facts.C08.hashSize = hashSize ∧
+    Facts.C08.lengthChecks = ["bucket.UnmarshalBinary:len(data)!=bucketBytes", "Iblt.UnmarshalBinary:len(data)!=numBuckets*bucketBytes",
+      "Xor.UnmarshalBinary:len(data)!=hash.SHA256HashSize"] ∧
+    Facts.C08.clockShelfKey = "stoabs.Uint32Key" ∧
+    Facts.C08.loadAssignsAfterUnmarshal = true := by decide
+
+/-- **Leaf keys round-trip and are injective** (`clockToKey` / `keyToClock`, little-endian): two different leaves never
+    share a shelf key, and `treeStore.read` recovers exactly the `splitLC` the leaf was written under. -/
+theorem leaf_key_roundtrip (c : Nat) (h : c < 2 ^ 32) :
+    keyToClock (clockToKey c) = .ok c ∧ (clockToKey c).length = 4 ∧
+    ∀ c', c' < 2 ^ 32 → clockToKey c' = clockToKey c → c' = c := by
+  refine ⟨keyToClock_clockToKey c h, leBytes_length 4 c, ?_⟩
+  intro c' h' e
+  have h1 := keyToClock_clockToKey c' h'
+  rw [e, keyToClock_clockToKey c h] at h1
+  cases h1; rfl
+
+/-- clock-shelf keys and the metadata values (`lc_high`, `tx_num`) decode to what was encoded (big-endian) -/
+theorem clock_key_roundtrip (c : Nat) (h : c < 2 ^ 32) (k : Nat) (hk : k < 2 ^ 64) :
+    bytesToClock (uint32Key c) = .ok c ∧ bytesToCount (countBytes k) = .ok k :=
+  ⟨bytesToClock_uint32Key c h, bytesToCount_countBytes k hk⟩
+
+/-- a value shorter than the integer makes the Go decoder panic (index out of range) — never a silent 0 -/
+theorem short_value_panics (b : Codec.Bytes) (h : b.length < 4) :
+    keyToClock b = .panic "index out of range" ∧ bytesToClock b = .panic "index out of range" := by
+  simp [keyToClock, bytesToClock, uintLE, uintBE, h]
+
+/-- **`parseHashList` inverts `appendHashList`** for every list of references, and drops a trailing partial hash -/
+theorem hash_list_roundtrip (refs : List Ref) (h : Ref) (tail : Codec.Bytes) (ht : tail.length < 32) :
+    parseHashList (encodeHashList refs) = refs ∧
+    parseHashList (appendHashList (encodeHashList refs) h) = refs ++ [h] ∧
+    parseHashList (encodeHashList refs ++ tail) = refs := by
+  refine ⟨?_, ?_, parseHashList_flat_tail refs tail ht⟩
+  · simpa using parseHashList_flat_tail refs [] (by simp)
+  · rw [encodeHashList_append]; simpa using parseHashList_flat_tail (refs ++ [h]) [] (by simp)
+
+/-- **`indexClockValue` on raw bytes refines the abstract clock index** (`Disk.indexClock`): on the encoded value of
+    the clock's reference list it puts exactly the encoding of the list the abstract layer computes, and puts nothing
+    when the reference is already listed. -/
+theorem index_clock_bytes_refines (d : Disk NB) (tx : Tx) :
+    match indexClockBytes ((getSorted tx.clock d.clocks).map encodeHashList) tx.ref with
+    | none => d.indexClock tx = d
+    | some b => ∃ refs', (d.indexClock tx).clocks = putSorted tx.clock refs' d.clocks ∧ b = encodeHashList refs' := by
+  unfold indexClockBytes Disk.indexClock
+  cases hg : getSorted tx.clock d.clocks with
+  | none =>
+    have hp : parseHashList ([] : Codec.Bytes) = [] := rfl
+    simp only [Option.map_none, hp, Option.getD_none]
+    simp only [List.contains_nil, Bool.false_eq_true, if_false]
+    exact ⟨[] ++ [tx.ref], rfl, by simp [encodeHashList, appendHashList]⟩
+  | some cur =>
+    simp only [Option.map_some, (hash_list_roundtrip cur tx.ref [] (by simp)).1, Option.getD_some]
+    by_cases hc : cur.contains tx.ref = true
+    · rw [if_pos hc, if_pos hc]
+    · rw [if_neg hc, if_neg hc]
+      exact ⟨cur ++ [tx.ref], rfl, encodeHashList_append cur tx.ref⟩
+
+/-- **Leaf codecs are exact inverses** — `UnmarshalBinary ∘ MarshalBinary = id` for the XOR leaf, the IBLT bucket and
+    the whole IBLT, and XOR `MarshalBinary ∘ UnmarshalBinary = id` on every accepted input (no information is lost
+    or invented by a restart). -/
+theorem leaf_codec_roundtrip (x : BitVec 256) (b : Bucket) (bs : List Bucket) :
+    xorUnmarshal (xorMarshal x) = .ok x ∧ bucketUnmarshal (bucketMarshal b) = .ok b ∧
+    ibltUnmarshal (ibltMarshal bs) = .ok bs ∧
+    (∀ d y, xorUnmarshal d = .ok y → xorMarshal y = d) :=
+  ⟨xorUnmarshal_marshal x, bucketUnmarshal_marshal b, ibltUnmarshal_marshal bs, xorMarshal_unmarshal⟩
+
+/-- the length checks: exactly the 32-byte values are XOR leaves; exactly the multiples of 44 bytes are IBLTs -/
+theorem leaf_codec_rejects (d : Codec.Bytes) :
+    (xorUnmarshal d = .err "invalid data length" ↔ d.length ≠ 32) ∧
+    (d.length % 44 ≠ 0 → ibltUnmarshal d = .err "invalid data length") := by
+  constructor
+  · unfold xorUnmarshal
+    simp only [hashSize]
+    by_cases h : d.length = 32 <;> simp [h]
+  · intro h
+    have hne : d.length ≠ d.length / bucketBytes * bucketBytes := by simp only [bucketBytes]; omega
+    show (if d.length ≠ d.length / bucketBytes * bucketBytes then _ else _) = _
+    rw [if_pos hne]
+
+/-- **`Load` on raw bytes refines the abstract `Load`**: on the bytes `writeWithoutLock` produced for a shelf it builds
+    exactly the tree the abstract layer builds from the shelf — so every tree theorem above (tree_inv_load,
+    restart_equiv, rollback_restores …) holds for the byte layer. -/
+theorem load_bytes_refines (b : Bool) (tX : Tree (BitVec 256)) (shelfX : List (Nat × BitVec 256))
+    (n : Nat) (tI : Tree (Iblt n)) (shelfI : List (Nat × Iblt n)) :
+    loadXorBytes b tX (shelfX.map fun kv => (kv.1, xorMarshal kv.2)) = (Tree.load xorOps b tX shelfX, .ok ()) ∧
+    loadIbltBytes n b tI (shelfI.map fun kv => (kv.1, ibltMarshalV kv.2)) = (Tree.load (ibltOps n) b tI shelfI, .ok ()) := by
+  constructor
+  · simp only [loadXorBytes, unmarshalLeaves_xor]
+  · simp only [loadIbltBytes, unmarshalLeaves_iblt, allToIblt_toList]
+
+/-- **Unchanged on error**: a `Load` that fails (a leaf of the wrong length, IBLT leaves of different sizes) returns
+    the tree it was called on, for every tree and every raw shelf content. -/
+theorem load_bytes_error_unchanged (b : Bool) (tX : Tree (BitVec 256)) (n : Nat) (tI : Tree (Iblt n))
+    (kvs : List (Nat × Codec.Bytes)) :
+    ((loadXorBytes b tX kvs).2 ≠ .ok () → (loadXorBytes b tX kvs).1 = tX) ∧
+    ((loadIbltBytes n b tI kvs).2 ≠ .ok () → (loadIbltBytes n b tI kvs).1 = tI) := by
+  constructor
+  · unfold loadXorBytes
+    cases unmarshalLeaves xorUnmarshal kvs <;> simp
+  · unfold loadIbltBytes
+    cases unmarshalLeaves ibltUnmarshal kvs with
+    | ok l =>
+      simp only
+      cases allToIblt n l with
+      | some l' => simp
+      | none => simp only; split <;> simp
+    | err e => simp
+    | panic s => simp
+
+/-- shelves only ever written by `writeWithoutLock` (`persist`) stay sorted by key — the shape `treeStore.read` needs -/
+theorem persist_keeps_sorted {G : Type} (t : Tree G) (shelf : List (Nat × G)) (hs : Sorted shelf) :
+    Sorted (persist t shelf).2 := by
+  unfold persist
+  simp only
+  generalize t.updates = ups
+  induction ups generalizing shelf with
+  | nil => exact hs
+  | cons kv rest ih => exact ih _ (putSorted_sorted kv.1 kv.2 shelf hs)
+
+/-- **Restart through the real bytes = the abstract restart** (shelf keys `clockToKey`, values `MarshalBinary`, raw
+    iteration `keyToClock`, `Load` with `UnmarshalBinary`): composing the key round trip, the codec round trip and
+    `load_bytes_refines`, `loadState` over the raw xorBucket / ibltBucket shelves yields exactly the memory the abstract
+    `loadState` yields, without error — hence `restart_equiv` and `rollback_restores` speak about the stored bytes. -/
+theorem load_state_through_bytes (c : Cfg) (d : Disk NB) (m : Mem NB)
+    (hsx : Sorted d.xorLeaves) (hsi : Sorted d.ibltLeaves)
+    (hbx : ∀ x ∈ d.xorLeaves, x.1 < 2 ^ 32) (hbi : ∀ x ∈ d.ibltLeaves, x.1 < 2 ^ 32) :
+    loadStateBytes c (encodeXorShelf d.xorLeaves) (encodeIbltShelf d.ibltLeaves) d.lcHigh m = (loadState c d m, .ok ()) := by
+  unfold loadStateBytes
+  simp only [readShelf_encodeXor _ hsx hbx, readShelf_encodeIblt _ hsi hbi,
+    (load_bytes_refines c.loadEmptyResets _ d.xorLeaves NB m.ibltTree d.ibltLeaves).1,
+    (load_bytes_refines c.loadEmptyResets m.xorTree d.xorLeaves NB _ d.ibltLeaves).2]
+  rfl
+
+/-- non-vacuity / witnesses on concrete bytes -/
+example : clockToKey 256 = [0, 1, 0, 0] ∧ uint32Key 256 = [0, 0, 1, 0] ∧ keyToClock [0, 1, 0, 0] = .ok 256 := by decide
+example : parseHashList (List.replicate 33 7) = [refOfBytes (List.replicate 32 7)] ∧ parseHashList (List.replicate 31 7) = [] := by
+  decide
+example : indexClockBytes none 5 = some (bytesOfRef 5) ∧ indexClockBytes (some (bytesOfRef 5)) 5 = none := by decide
+example : bucketMarshal ⟨1, 2, 3⟩ = [1, 0, 0, 0, 2, 0, 0, 0, 0, 0, 0, 0] ++ List.replicate 31 0 ++ [3] := by decide
+example : (loadXorBytes true (Tree.new xorOps 4) [(2, [1, 2, 3])]).2 = .err "invalid data length" := by decide
+example : (loadIbltBytes 1 true (Tree.new (ibltOps 1) 4) [(2, List.replicate 44 0), (6, List.replicate 88 0)]).2
+    = .err "number of buckets do not match" := by decide
+example : Sorted ([(256, (1 : BitVec 256)), (768, 2)]) ∧ (∀ x ∈ [(256, (1 : BitVec 256)), (768, 2)], x.1 < 2 ^ 32) := by
+  constructor
+  · simp [Sorted]
+  · intro x hx; simp at hx; rcases hx with h | h <;> subst h <;> decide
+
+end codec
 
 end Nuts.C08.Props
